@@ -657,7 +657,18 @@ def rule_wide_kind_per_key(ctx, crate, rule="R-WIDE-KIND-PER-KEY"):
             return "Option<style::WideElement" in str(b.locals[l]["ty"])
         stores = [st for i, j, st in b.assigns() if i in reg and st["rv"]["k"] == "agg" and st["rv"].get("adt", "").endswith("option::Option")
                   and st["rv"].get("variant") == "Some" and is_optw(st["lhs"]["l"])]
-        stores += [c for c in b.calls(r"(std|core)::option::Option::<T>::(insert|replace)$") if c.bb in reg]
+        stores = [(i, st) for i, j, st in b.assigns() if st in stores]
+        stores += [(c.bb, c) for c in b.calls(r"(std|core)::option::Option::<T>::(insert|replace)$") if c.bb in reg]
+        # ... unconditionally: no test inside the arm decides whether the store happens (`if wide.is_none() { wide = Some(..) }`)
+        def conditional(bb):
+            for sb, t in b.switches():
+                if sb not in reg:
+                    continue
+                tg = {x for _, x in t["targets"]} | {t["otherwise"]}
+                if len(tg) > 1 and any(b.edge_dominates((sb, x), bb) for x in tg):
+                    return True
+            return False
+        stores = [x for x in stores if not conditional(x[0])]
         keeps = sorted({c.path for c in b.calls(r"(std|core)::option::Option::<T>::(get_or_insert|get_or_insert_with|or|or_else|xor)$") if c.bb in reg})
         c0 = arms[key][0]
         ctx.check(bool(stores) and not keeps, rule, "arm:%s" % key, b.name, c0.loc(),
